@@ -48,7 +48,7 @@ def default_cfg():
 class Step:
     __slots__ = ('idx', 'ep', 'kind', 'op', 'args', 'ok', 'exc', 'ret', 'events', 'raw_events',
                  'out', 'out_frames', 'in_frames', 'chunk', 'tick', 'tainted', 'pre', 'units',
-                 'snap', 'rejected', 'obs', 'trailing', 'quirk', 'exact')
+                 'snap', 'rejected', 'obs', 'trailing', 'quirk', 'exact', 'pre_promised')
 
     def __init__(self):
         self.exc = None
@@ -66,6 +66,7 @@ class Step:
         self.rejected = ()       # recv: per unit, answered with RST_STREAM
         self.obs = None          # read-only window probes after the step {sid: (local, remote)}
         self.trailing = 0        # recv: bytes of a not yet complete frame held after this chunk
+        self.pre_promised = None  # recv: per unit, pre-state of the promised stream of a PUSH_PROMISE (or None)
         self.quirk = None        # recv: a delivered frame hits a documented dependency quirk
         self.exact = False       # recv: exactly one dispatch unit and nothing else in this chunk (exact attribution)
 
@@ -378,6 +379,7 @@ class World:
 
         out_rst = set(f.sid for f in s.out_frames if f.type == C.RST_STREAM)
         pres = []
+        ppres = []
         rej = []
         conn_error = not s.ok
         if conn_error:
@@ -400,6 +402,8 @@ class World:
         for i, f in enumerate(units):
             st = trk.get(f.sid) if f.sid else None
             pres.append(st.copy() if st is not None else None)
+            pst = trk.get(f.promised) if (f.type == C.PUSH_PROMISE and f.promised) else None
+            ppres.append(pst.copy() if pst is not None else None)
             if skip_all:
                 rej.append(False)
                 if f.type == C.HEADERS and f.sid and not trk.is_mine(f.sid) and f.sid > trk.hi_peer:
@@ -426,6 +430,7 @@ class World:
                 f.hpack_error = 'dynamic table size update above the acknowledged HEADER_TABLE_SIZE'
             trk.on_in(f, r, conn_error and last)
         s.pre = pres
+        s.pre_promised = ppres
         s.rejected = rej
         trk.on_out(s.out_frames)
         # a local stream error whose RST_STREAM never reached the output (a GOAWAY received later in the same
